@@ -92,6 +92,49 @@ Proof.
   rewrite Erv. reflexivity.
 Qed.
 
+(* The same with the agreement demanded ONLY for the part and track that find_track selects (the statement above asks for it at every
+   pair of ids, which other-track edits do not satisfy; its proof uses the selected pair only). *)
+Definition event_parts (data : json) : option (list (string * json)) :=
+  match get "event" data with Some ev => match as_object ev with Some _ => match get "parts" ev with Some p => as_object p | None => None end | None => None end | None => None end.
+Definition selected (data : json) (track : option Z) : option (Z * Z) :=
+  match event_parts data with
+  | Some parts => match find_track parts track with ROk (p, t, _) => Some (p, t) | RErr _ => None end
+  | None => None end.
+
+Theorem spec_read_depends_selected data data' track ign_c ign_a ff of :
+  get "kind" data = get "kind" data' -> get "EVENT_SCHEMA_VERSION" data = get "EVENT_SCHEMA_VERSION" data' ->
+  get "CDEDB_EXPORT_EVENT_VERSION" data = get "CDEDB_EXPORT_EVENT_VERSION" data' ->
+  get "timestamp" data = get "timestamp" data' -> get "event" data = get "event" data' -> get "id" data = get "id" data' ->
+  (forall part_id track_id, selected data' track = Some (part_id, track_id) ->
+     match items_of "courses" data, items_of "courses" data' with
+     | Some l, Some l' => Forall2 (fun x y : string * json => fst x = fst y /\ course_data track_id (snd x) = course_data track_id (snd y)) l l'
+     | None, None => True | _, _ => False end /\
+     match items_of "registrations" data, items_of "registrations" data' with
+     | Some l, Some l' => Forall2 (fun x y : string * json => fst x = fst y /\ reg_data part_id track_id (snd x) = reg_data part_id track_id (snd y)) l l'
+     | None, None => True | _, _ => False end) ->
+  spec_read data track ign_c ign_a ff of = spec_read data' track ign_c ign_a ff of.
+Proof.
+  intros Hk Hv Hv2 Ht He Hi Hitems. unfold spec_read, check_version. rewrite Hk, Hv, Hv2, Ht, He, Hi.
+  destruct (let* kind := ok_or (match get "kind" data' with Some v => as_str v | None => None end) 1 in _) as [u|]; [|reflexivity]. cbn [bind].
+  destruct (ok_or (match get "timestamp" data' with Some v => as_str v | None => None end) 9) as [ts|]; [|reflexivity]. cbn [bind].
+  destruct (ok_or (match get "event" data' with Some ev => _ | None => None end) 10) as [parts|] eqn:Ep; [|reflexivity]. cbn [bind].
+  destruct (find_track parts track) as [[[part_id track_id] td]|] eqn:Ef; [|reflexivity]. cbn [bind].
+  assert (Hsel : selected data' track = Some (part_id, track_id)).
+  { unfold selected, event_parts. unfold ok_or in Ep.
+    destruct (match get "event" data' with Some ev => _ | None => None end) as [parts'|]; [|discriminate]. inversion Ep; subst parts'. rewrite Ef. reflexivity. }
+  destruct (Hitems part_id track_id Hsel) as [Hc Hr]. unfold items_of in Hc, Hr.
+  destruct (get "courses" data) as [cv|], (get "courses" data') as [cv'|]; try destruct (as_object cv) as [co|]; try destruct (as_object cv') as [co'|];
+    try contradiction; try reflexivity; cbn [ok_or bind].
+  assert (Ecv : mapM (view_course track_id ign_c ff of) (obj_items co) = mapM (view_course track_id ign_c ff of) (obj_items co')).
+  { apply mapM_ext. eapply Forall2_impl; [|exact Hc]. intros [k c] [k' c'] [Hkk Hcd]. simpl in *. subst k'. apply view_course_depends. exact Hcd. }
+  rewrite Ecv. destruct (mapM (view_course track_id ign_c ff of) (obj_items co')) as [cviews|]; [|reflexivity]. cbn [bind].
+  destruct (get "registrations" data) as [rv|], (get "registrations" data') as [rv'|]; try destruct (as_object rv) as [ro|]; try destruct (as_object rv') as [ro'|];
+    try contradiction; try reflexivity; cbn [ok_or bind].
+  assert (Erv : mapM (view_reg part_id track_id (spec_cmap ign_c cviews)) (obj_items ro) = mapM (view_reg part_id track_id (spec_cmap ign_c cviews)) (obj_items ro')).
+  { apply mapM_ext. eapply Forall2_impl; [|exact Hr]. intros [k r] [k' r'] [Hkk Hrd]. simpl in *. subst k'. apply view_reg_depends. exact Hrd. }
+  rewrite Erv. reflexivity.
+Qed.
+
 (* ---- without --ignore-assigned the existing assignment (course_id) does not matter ---- *)
 Definition forget_assigned (v : rview) : rview :=
   {| rv_id := rv_id v; rv_name := rv_name v; rv_part := rv_part v;
